@@ -394,14 +394,15 @@ def generate_c16(tier, rng):
 
 # ------------------------------------------------------------------ C17
 
-def bad_env(ids, conn, name, kind, dst, dialed=None):
-    """an envelope whose source is not the sender's name"""
+def bad_env(ids, conn, name, kind, dst, dialed=None, rec=None, nxt=None):
+    """an envelope whose source is not the sender's name (optionally dressed up as a relayed one: with a route
+    record and / or a return route, both of which the sender controls)"""
     if kind == 'noheader':
         return w(ids, conn, '', dst, noh=True, dialed=dialed)
     src = {'attached': 'b', 'unknown': 'nobody', 'dialable': 'd', 'empty': '', 'self': name}[kind]
     if src == name:
         src = 'a'
-    return w(ids, conn, src, dst, dialed=dialed)
+    return w(ids, conn, src, dst, dialed=dialed, rec=rec, nxt=nxt)
 
 
 def c17_spoof(rng, count):
@@ -416,12 +417,15 @@ def c17_spoof(rng, count):
                     steps = [attach('a', 1), attach('b', 2)]
                     good = [w(ids, 1, 'a', 'b', rep=rng.randint(1, 4)), w(ids, 2, 'b', 'a', rep=rng.randint(1, 3)), w(ids, 1, 'a', 'd')]
                     conn = {'a': 1, 'b': 2}.get(sender, 0)
-                    bad = bad_env(ids, conn, sender, kind, dst, dialed='d' if sender == 'd' else None)
+                    dress = k % 4
+                    bad = bad_env(ids, conn, sender, kind, dst, dialed='d' if sender == 'd' else None,
+                                  rec=(['q0'] if dress == 1 else ['q0', 'q1'] if dress == 3 else None),
+                                  nxt=([dst] if dress in (2, 3) and dst != 'nobody' else None))
                     if sender == 'd':
                         steps.append(w(ids, 1, 'a', 'd'))
                     seq = good[:pos] + [bad] + good[pos:]
                     steps += seq + [Q, w(ids, 2, 'b', 'a', rep=2), Q]
-                    out.append(scen('C17', 'spoof %s by %s at %d dst=%s' % (kind, sender, pos, dst), steps, dial={'d': 'ok'}))
+                    out.append(scen('C17', 'spoof %s by %s at %d dst=%s%s' % (kind, sender, pos, dst, ['', ' +record', ' +return route', ' +record+return route'][dress]), steps, dial={'d': 'ok'}))
                     k += 1
     rng.shuffle(out)
     return out[:count]
